@@ -6,7 +6,7 @@ import runner_common as rc
 LEVEL = "proof"
 # every way of reaching the retry loop without a breaker: the caps are configuration, whoever builds the policy (constructor,
 # RetryPolicy, decorator, RetryConfig + from_config)
-OPTS = {"p_cap_mix": 0.35, "entries": ["retry", "retry", "retry.ctx", "retrypolicy", "retrypolicy.ctx", "decorator", "retrycfg", "retrypolicycfg"]}
+OPTS = {"p_cap_mix": 0.35, "entries": rc.ENTRIES_NO_BREAKER}
 
 
 def run(chk):
